@@ -8,7 +8,8 @@ import tracecheck
 
 NUMS = {'2': ([2, 1], 'int'), '3': ([3, 1], 'dec'), 'half': ([1, 2], 'frac'), '10': ([10, 1], 'dec'),
         '-1': ([-1, 1], 'int'), '3/2': ([3, 2], 'frac'), '1': ([1, 1], 'int'), '2d': ([2, 1], 'dec'),
-        '4f': ([4, 1], 'frac')}
+        '4f': ([4, 1], 'frac'), '-2': ([-2, 1], 'int'), '-1d': ([-1, 1], 'dec'), '-2f': ([-2, 1], 'frac'),
+        '3i': ([3, 1], 'int'), '7i': ([7, 1], 'int')}
 ELS = ['x', 'y', 'p', 'q', 'kx', 'hx', 'xy', 'kxy']
 
 
@@ -90,6 +91,22 @@ def cases(ctx):
             out.append(dict(op='mulnum', a=t, k=v, kty=ty, left=bool(len(out) % 2)))
             out.append(dict(op='rdiv', a=t, k=v, kty=ty))
             out.append(dict(op='divnum', a=t, k=v, kty=ty))
+    # factors whose hashes coincide in CPython (hash(-1) == hash(-2)) on terms that are not in normal form: the normal
+    # form of one must not be taken for the other's, whichever was normalised first
+    for (k1, k2) in (('-1', '-2'), ('-2', '-1'), ('-1d', '-2f'), ('-2f', '-1d')):
+        for rest in ([elitem('y', -1), elitem('x', 1)], [elitem('kxy', 1)], [elitem('q', 1), elitem('p', 1), elitem('x', 2)]):
+            a, b = [numitem(k1, 1)] + rest, [numitem(k2, 1)] + rest
+            out.append(dict(op='norm', t=a))
+            out.append(dict(op='norm', t=b))
+            out.append(dict(op='eq', a=a, b=b))
+            out.append(dict(op='eq', a=rest + [numitem(k1, 1)], b=a))
+    # an int factor divided / multiplied by an int: the quotient is exact, never a float
+    for kk in ('2', '3i', '7i', '-2'):
+        for rest in ([elitem('x', 1)], [elitem('y', -2)], [elitem('kx', 1)]):
+            for dv in ('3i', '7i', '2', '-2'):
+                v, ty = NUMS[dv]
+                out.append(dict(op='divnum', a=[numitem(kk, 1)] + rest, k=v, kty=ty))
+                out.append(dict(op='mulnum', a=[numitem(kk, 1)] + rest, k=v, kty=ty, left=False))
     # associativity etc. need no own events: every product is judged against the group operation
     # the same operations on operands that were normalized / hashed / compared before
     warm = []
